@@ -100,6 +100,20 @@ def ctx_closure_in_choice(b):
     return ('alt', ('seq', ('clo', seq(b[0])), T2), seq(b[1])), []
 
 
+def ctx_pclosure_in_choice(b):
+    # a cut inside a positive repetition commits that iteration only: once the repetition has succeeded, a later
+    # failure in the same option leaves the other option open
+    return ('alt', ('seq', ('pclo', seq(b[0])), T2), seq(b[1])), []
+
+
+def ctx_pjoin_in_choice(b):
+    return ('alt', ('seq', ('pjoin', T2, seq(b[0])), T1), seq(b[1])), []
+
+
+def ctx_pgather_in_optional(b):
+    return ('seq', ('opt', ('seq', ('pgather', T2, seq(b[0])), T1)), *b[1]), []
+
+
 def expansion(name, b):
     """The documentation's own equivalences as grammars (docs/syntax.rst, section on ~):
     [x] == B -> x | ();  {x} == B -> x B | ();  {x}+ == B -> x B | x.  Returns (start exp, rules) or None."""
@@ -121,6 +135,7 @@ CONTEXTS = [
     ('pclosure', 2, ctx_pclosure), ('join', 2, ctx_join), ('gather', 2, ctx_gather),
     ('nested-choice', 3, ctx_nested_choice), ('opt-in-closure', 2, ctx_opt_in_closure),
     ('rule', 3, ctx_rule), ('rule-body', 2, ctx_rule_body), ('closure-in-choice', 2, ctx_closure_in_choice),
+    ('pclosure-in-choice', 2, ctx_pclosure_in_choice),
 ]
 
 # which body slots may receive cuts, per context (tails that are spliced into the
@@ -128,6 +143,7 @@ CONTEXTS = [
 CUT_SLOTS = {
     'choice': (0, 1), 'optional': (0,), 'closure': (0,), 'pclosure': (0,), 'join': (0,), 'gather': (0,),
     'nested-choice': (0, 1), 'opt-in-closure': (0,), 'rule': (0, 1), 'rule-body': (0,), 'closure-in-choice': (0,),
+    'pclosure-in-choice': (0,),
 }
 
 
